@@ -26,7 +26,7 @@ Section Grow.
   Hypothesis Gtl : forall t, is_prefix (tl g t) (tl g' t).
   Hypothesis Ggl : forall t, gl g t <> 0 -> gl g' t = gl g t.
   (* what is appended to tl t1 has term t1 *)
-  Hypothesis Gnew : forall t1 p e, List.length (tl g t1) <= p -> nth_error (tl g' t1) p = Some e -> e_term e = t1.
+  Hypothesis Gnew : forall t1 p e, gl g t1 <> 0 -> List.length (tl g t1) <= p -> nth_error (tl g' t1) p = Some e -> e_term e = t1.
   Hypothesis Gle : forall t e, In e (tl g t) -> e_term e <= t.
 
   Lemma own_keep t k : own g t k -> own g' t k.
@@ -56,6 +56,182 @@ Section Grow.
         destruct (nth_error (tl g' t1) p) as [e|] eqn:En; [|apply nth_error_None in En; lia].
         assert (E1 : nth_error (tl g t) p = Some e).
         { rewrite <- (nth_error_firstn_lt k) by lia. rewrite <- Hh. rewrite nth_error_firstn_lt by lia. exact En. }
-        pose proof (Gnew t1 p e (le_n _) En). apply nth_error_In in E1. apply Gle in E1. lia.
+        pose proof (Gnew t1 p e B (le_n _) En). apply nth_error_In in E1. apply Gle in E1. lia.
   Qed.
 End Grow.
+
+Lemma last_term_nth l : l <> [] -> exists e, nth_error l (List.length l - 1) = Some e /\ last_term l = e_term e.
+Proof.
+  intros Hne. unfold last_term, log_at. destruct (List.length l) as [|n] eqn:E.
+  - destruct l; [congruence|discriminate].
+  - cbn. rewrite Nat.sub_0_r. destruct (nth_error l n) as [e|] eqn:En.
+    + exists e. auto.
+    + apply nth_error_None in En. lia.
+Qed.
+Lemma last_term_nil : last_term [] = 0. Proof. reflexivity. Qed.
+
+Lemma firstn_firstn_le {A} k n (l : list A) : k <= n -> firstn k (firstn n l) = firstn k l.
+Proof. intros H. rewrite firstn_firstn. f_equal. lia. Qed.
+
+(* the candidate's log X is at least as up to date as the voter's log lv, which holds the acknowledged prefix (t,k) *)
+Lemma up_to_date g X lv t k :
+  (forall t0, tree_ok (tl g) (tl g t0)) -> (forall t0, sorted_terms (tl g t0)) ->
+  (forall t0 e, In e (tl g t0) -> e_term e <= t0) -> (forall t0, gl g t0 = 0 -> tl g t0 = []) ->
+  tree_ok (tl g) X -> tree_ok (tl g) lv ->
+  hasp lv g t k -> own g t k ->
+  (last_term lv < last_term X \/ (last_term X = last_term lv /\ List.length lv <= List.length X)) ->
+  hasp X g t k \/ bad g t k (last_term X).
+Proof.
+  intros T1' S1' Sb T5' TX Tv Hh Ho Hup.
+  destruct (own_len _ _ _ Ho) as [Hk1 Hk].
+  apply term_at_nth in Ho as (e & _ & Ne & Te).
+  assert (Hlv : k <= List.length lv).
+  { apply (firstn_eq_length k (tl g t) lv); auto. }
+  assert (Nv : nth_error lv (k - 1) = Some e).
+  { rewrite <- (nth_error_firstn_lt k) by lia. unfold hasp in Hh. rewrite Hh. rewrite nth_error_firstn_lt by lia. exact Ne. }
+  assert (Hvne : lv <> []) by (destruct lv; [cbn in Hlv; lia|discriminate]).
+  destruct (last_term_nth lv Hvne) as (ev & Nl & El).
+  assert (Htv : t <= last_term lv).
+  { rewrite El, <- Te. eapply (path_sorted (tl g) lv Tv S1' (k - 1) (List.length lv - 1)); eauto. lia. }
+  destruct (Nat.eq_dec (last_term X) t) as [Ex|Nx].
+  - (* same last term: X is a prefix of tl t and at least as long as lv *)
+    left. assert (Hl : List.length lv <= List.length X) by lia.
+    assert (HXne : X <> []) by (destruct X; [cbn in Hl; lia|discriminate]).
+    destruct (last_term_nth X HXne) as (ex & Nx & Elx).
+    pose proof (TX _ _ Nx) as P. replace (S (List.length X - 1)) with (List.length X) in P by (destruct X; [congruence|cbn; lia]).
+    rewrite <- Elx, Ex in P. unfold hasp.
+    rewrite <- (firstn_firstn_le k (List.length X) X) by lia.
+    rewrite <- (firstn_firstn_le k (List.length X) (tl g t)) by lia. now rewrite P.
+  - assert (Hlt : t < last_term X) by lia.
+    assert (HXne : X <> []) by (intros ->; rewrite last_term_nil in Hlt; lia).
+    destruct (last_term_nth X HXne) as (ex & NX & Elx).
+    pose proof (TX _ _ NX) as P. replace (S (List.length X - 1)) with (List.length X) in P by (destruct X; [congruence|cbn; lia]).
+    rewrite <- Elx in P.
+    assert (Hgl : gl g (last_term X) <> 0).
+    { intros Z. apply T5' in Z. rewrite Z in P. rewrite firstn_nil in P.
+      assert (List.length (firstn (List.length X) X) = 0) by now rewrite P. rewrite firstn_all in H. destruct X; [congruence|discriminate]. }
+    destruct (hasp_dec (tl g (last_term X)) g t k) as [Hy|Hn]; [|right; repeat split; auto].
+    left. unfold hasp in *.
+    assert (HkX : k <= List.length X).
+    { destruct (Nat.le_gt_cases k (List.length X)) as [|Hgt]; auto. exfalso.
+      (* the last entry of X (term last_term X) sits before position k-1 (term t) in tl (last_term X) *)
+      assert (Hlen : k <= List.length (tl g (last_term X))) by (apply (firstn_eq_length k (tl g t)); auto).
+      assert (A : nth_error (tl g (last_term X)) (List.length X - 1) = Some ex).
+      { rewrite <- (nth_error_firstn_lt (List.length X)) by (destruct X; [congruence|cbn; lia]).
+        rewrite <- P. rewrite firstn_all. exact NX. }
+      assert (B : nth_error (tl g (last_term X)) (k - 1) = Some e).
+      { rewrite <- (nth_error_firstn_lt k) by lia. rewrite Hy. rewrite nth_error_firstn_lt by lia. exact Ne. }
+      pose proof (S1' (last_term X) (List.length X - 1) (k - 1) ex e) as Srt.
+      assert (e_term ex <= e_term e) by (apply Srt; auto; lia). lia. }
+    rewrite <- (firstn_firstn_le k (List.length X) X) by lia. rewrite P.
+    rewrite firstn_firstn_le by lia. exact Hy.
+Qed.
+
+(* ---------- more per-label facts ---------- *)
+Lemma core_vote_cases cfg i sv f l sv' out ltr :
+  server_core cfg i sv f l = HR sv' out ltr -> s_voted sv' <> 0 ->
+  (s_voted sv' = s_voted sv /\ s_term sv' = s_term sv) \/
+  (s_voted sv' = i /\ s_term sv' = s_term sv + 1 /\ s_role sv' = Candidate /\ s_log sv' = s_log sv) \/
+  (exists mt lt li j d, s_m sv = Some (RVQ mt lt li j d) /\ s_voted sv' = j /\ s_term sv' = mt /\ s_term sv <= mt /\
+     s_log sv' = s_log sv /\
+     (last_term (s_log sv) < lt \/ (lt = last_term (s_log sv) /\ List.length (s_log sv) <= li))).
+Proof.
+  intros H Hv. destruct l; core_cases H; ut_cases; cbn in *; try congruence; auto.
+  all: try (right; left; repeat split; auto; fail).
+  all: right; right; eexists _, _, _, _, _; split; [reflexivity|]; bprop; subst; cbn in *; repeat split; auto; try lia.
+Qed.
+
+Lemma core_cand_cases cfg i sv f l sv' out ltr :
+  server_core cfg i sv f l = HR sv' out ltr -> s_role sv' = Candidate ->
+  (s_role sv = Candidate /\ s_term sv' = s_term sv /\ s_log sv' = s_log sv) \/
+  (s_role sv <> Leader /\ s_term sv' = s_term sv + 1 /\ s_log sv' = s_log sv /\ s_voted sv' = i).
+Proof.
+  intros H Hc. destruct l; core_cases H; ut_cases; cbn in *; try discriminate; auto.
+  all: bprop; try discriminate; try (destruct (s_role sv); cbn in *; try discriminate; auto; fail).
+  all: try (right; repeat split; auto; destruct (s_role sv); cbn in *; congruence).
+Qed.
+
+Lemma core_rvq_out cfg i sv f l sv' md d t' lt li c dst ltr :
+  server_core cfg i sv f l = HR sv' (Some (md, d, RVQ t' lt li c dst)) ltr ->
+  c = i /\ dst = d /\ d <> i /\ t' = s_term sv /\ lt = last_term (s_log sv) /\ li = List.length (s_log sv) /\
+  s_log sv' = s_log sv /\ s_term sv' = s_term sv /\ s_role sv' = s_role sv.
+Proof.
+  intros H. destruct l; unfold_core H; repeat (destr_in H; try discriminate H); inversion H; subst; clear H.
+  bprop. repeat split; auto.
+Qed.
+
+(* ---------- invariant, part B ---------- *)
+Definition rvq_inv (cfg : config) (s : state) (g : ghost) (m : msg) : Prop :=
+  match m with
+  | RVQ t' lt li c d =>
+      is_server cfg c = true /\ c <> d /\ t' <= s_term (srv s c) /\
+      (s_role (srv s c) = Candidate -> s_term (srv s c) = t' -> gl g t' = 0 ->
+         lt = last_term (s_log (srv s c)) /\ li = List.length (s_log (srv s c))) /\
+      (gl g t' = c -> exists n, n <= List.length (tl g t') /\ lt = last_term (firstn n (tl g t')) /\ li = n)
+  | _ => True
+  end.
+
+Record binv (cfg : config) (s : state) (g : ghost) (a : acks) : Prop := {
+  Rn : forall d m, In m (net s d) -> rvq_inv cfg s g m;
+  Rm : forall i m, s_m (srv s i) = Some m -> rvq_inv cfg s g m;
+  VS : forall v, s_voted (srv s v) <> 0 -> gv g v (s_term (srv s v)) = s_voted (srv s v);
+  V0 : forall v t' c, gv g v t' = c -> c <> 0 -> v <> c -> t' <= s_term (srv s c);
+  K : forall v t k, 1 <= k -> k <= a v t -> own g t k ->
+        hasp (s_log (srv s v)) g t k \/ exists t1, t1 <= s_term (srv s v) /\ bad g t k t1;
+  Wa : forall v t' c, gv g v t' = c -> c <> 0 -> s_role (srv s c) = Candidate -> s_term (srv s c) = t' -> gl g t' = 0 ->
+        forall t k, t < t' -> 1 <= k -> k <= a v t -> own g t k ->
+          hasp (s_log (srv s c)) g t k \/ exists t1, t1 < t' /\ bad g t k t1;
+  Wb : forall t', gl g t' <> 0 -> exists Q, NoDup Q /\ incl Q (seq 1 (cfg_n cfg)) /\ cfg_n cfg < List.length Q * 2 /\
+        forall v, In v Q -> gv g v t' = gl g t' /\
+          forall t k, t < t' -> 1 <= k -> k <= a v t -> own g t k ->
+            hasp (tl g t') g t k \/ exists t1, t1 < t' /\ bad g t k t1
+}.
+
+Section BinvStep.
+  Variables (cfg : config) (s : state) (g : ghost) (a : acks) (ev : event) (s' : state).
+  Hypothesis IE : einv cfg s (gv g).
+  Hypothesis I : linv cfg s g.
+  Hypothesis IA : ainv cfg s g a.
+  Hypothesis IB : binv cfg s g a.
+  Hypothesis H : step cfg s ev = Commit s'.
+  Hypothesis Hfifo : cfg_fifo cfg = true.
+  Let g' := observe cfg g s'.
+  Let a' := observe_ack cfg a s'.
+  Hypothesis I' : linv cfg s' g'.
+  Hypothesis IA' : ainv cfg s' g' a'.
+  Hypothesis IE' : einv cfg s' (gv g').
+
+  Lemma Gtl t : is_prefix (tl g t) (tl g' t).
+  Proof. apply (tl_grows _ _ _ _ _ IE I H). Qed.
+  Lemma Ggl t : gl g t <> 0 -> gl g' t = gl g t.
+  Proof. apply (gl_persist _ _ _ _ _ IE I H). Qed.
+  Lemma Ggl0 t : gl g' t = 0 -> gl g t = 0.
+  Proof. intros Z. destruct (Nat.eq_dec (gl g t) 0); auto. rewrite Ggl in Z; auto. Qed.
+  Lemma Gnew t1 p e : gl g t1 <> 0 -> List.length (tl g t1) <= p -> nth_error (tl g' t1) p = Some e -> e_term e = t1.
+  Proof.
+    intros Hne Hp Hn.
+    destruct (tl_step_cases _ _ _ _ _ IE I H t1) as [(E & _)|[(x & E & Et & _)|(Z & _)]]; try congruence;
+      fold g' in E; rewrite E in Hn.
+    - apply nth_error_lt in Hn. lia.
+    - rewrite nth_error_app2 in Hn by lia. destruct (p - List.length (tl g t1)) as [|y]; [|destruct y; discriminate].
+      injection Hn as <-. exact Et.
+  Qed.
+  Lemma Gle t e : In e (tl g t) -> e_term e <= t.
+  Proof. apply (S1b _ _ _ _ IA). Qed.
+
+  Lemma own_keep' t k : own g t k -> own g' t k.
+  Proof. apply own_keep. exact Gtl. Qed.
+  Lemma own_back' t k : own g' t k -> k <= List.length (tl g t) -> own g t k.
+  Proof. apply own_back. exact Gtl. Qed.
+  Lemma hasp_keep' l t k : hasp l g t k -> own g t k -> hasp l g' t k.
+  Proof. intros Hh Ho. eapply hasp_keep; eauto. exact Gtl. apply (own_len _ _ _ Ho). Qed.
+  Lemma bad_keep' t k t1 : own g t k -> bad g t k t1 -> bad g' t k t1.
+  Proof. apply bad_keep; [exact Gtl | exact Ggl | exact Gnew | exact Gle]. Qed.
+
+  (* acknowledgements of a server that has moved to a later term are frozen *)
+  Lemma ack_frozen v t k : 1 <= k -> k <= a' v t -> t < s_term (srv s v) -> k <= a v t.
+  Proof.
+    intros Hk1 Hk Ht. pose proof (term_monotone_step _ _ _ _ v H) as Hm.
+    destruct (ack_cases _ _ _ _ _ _ IE I IA H I' v t k Hk1 Hk) as [|[(prev & prevT & es & mc & j & dd & _ & _ & _ & _ & _ & _ & _ & _ & Hle & _)|(_ & Tm & _)]]; auto; lia.
+  Qed.
+End BinvStep.
